@@ -86,10 +86,16 @@ def build(i, check):
     return g, triggers
 
 
-def finish_seq(res, src):
-    """Sequence number of the event after which the source step cannot change its fate any more."""
+def finish_seq(res, src, stage="outputs"):
+    """Sequence number of the plugin-boundary event after which the referenced stage of the source step is decided:
+    the end of the execution (or a failed deployment) for outputs/crashed, the end of the run-time deployment for deploy_failed."""
     for e in res.get("events") or []:
-        if e["src"] == src and (e["kind"] == "exec-end" or e["kind"] == "deploy-fail"):
+        if e["src"] != src:
+            continue
+        if stage == "deploy_failed":
+            if e["kind"] == "deploy-fail" or (e["kind"] == "deploy-ok" and mon._nth(e) >= 2):
+                return e["seq"]
+        elif e["kind"] == "exec-end" or e["kind"] == "deploy-fail":
             return e["seq"]
     return None
 
@@ -108,7 +114,7 @@ def monitor(case, res, sem, g):
             srcname = w.node.step
             st = sem.state(srcname)
             if srcname in ("A", "B") and w.node.stage in ("outputs", "crashed", "deploy_failed") and (st.executed or st.deployed is False):
-                f = finish_seq(res, srcname)
+                f = finish_seq(res, srcname, w.node.stage)
                 if f is None or f > cstart[0]["seq"]:
                     vs.append(mon.V("C15", "wait-optional@consumer-started-before-source-finished", "C started at seq %d, source %s finished at %s" % (cstart[0]["seq"], srcname, f)))
     # soft-optional on a never-ending source must not delay the consumer: such runs must return (deadlock oracle in run());
